@@ -345,7 +345,16 @@ pub fn run_c08(ctx: &Ctx) -> i32 {
                 }
             }
         }
-        let desc = json!({"order": order, "n": n, "warmup": warmup, "profile": profile, "params": params.iter().take(8).collect::<Vec<_>>(), "max_q": q.iter().max()});
+        // one case in eight leaves Rice codes in the warm-up slots (which are never written): the
+        // constructor may refuse that; if it accepts, the count must still be what is written
+        let dirty_warmup = warmup > 0 && rng.chance(1, 8);
+        if dirty_warmup {
+            for t in 0..warmup {
+                q[t] = 1 + rng.usize_below(200) as u32;
+                r[t] = rng.usize_below(2) as u32;
+            }
+        }
+        let desc = json!({"order": order, "n": n, "warmup": warmup, "profile": profile, "params": params.iter().take(8).collect::<Vec<_>>(), "max_q": q.iter().max(), "codes_in_warmup_slots": dirty_warmup});
         let res = match make_residual(order, n, warmup, &params, &q, &r) {
             Ok(x) => x,
             Err(e) => {
@@ -756,6 +765,12 @@ pub fn run_c11(ctx: &Ctx) -> i32 {
     run_cases(ctx, "usersink", n, &mut out, |idx, out| {
         let mut rng = Rng::for_case(ctx.seed, "C11.usersink", idx);
         let case = gen_case(&mut rng, &Limits { max_samples: 5000, ..Limits::default() });
+        // a third of the comparisons happen right after failed writes on this thread: whatever a
+        // failed write leaves behind would reach the three sink types differently
+        if idx % 3 == 1 {
+            crate::poison::failing_writes(&mut Rng::for_case(ctx.seed, "poison", idx));
+            out.count("comparisons_after_failed_writes_on_the_thread");
+        }
         if let Ok(obs) = observe(&case) {
             out.count("streams_through_user_sink");
             oracle_c08_stream(ctx, "usersink", idx, &case.describe(), &obs.stream, out);
@@ -776,8 +791,24 @@ pub fn run_c11(ctx: &Ctx) -> i32 {
 
 /// Injects a failure at every operation k of writing `c` to a user sink.
 fn fault_sweep<T: BitRepr>(ctx: &Ctx, what: &str, c: &T, max_dense: usize, out: &mut Outcome, rp: &dyn Fn(usize) -> serde_json::Value) {
-    let clean = catch(|| {
+    // the sink is byte aligned when the write starts, and (second sweep, a third of the fault
+    // positions) holds 3 bits already, so that alignment steps inside the write are not no-ops
+    fault_sweep_prefilled(ctx, what, c, max_dense, 0, out, rp);
+    fault_sweep_prefilled(ctx, what, c, (max_dense / 3).max(8), 3, out, rp);
+}
+
+fn fault_sweep_prefilled<T: BitRepr>(_ctx: &Ctx, what: &str, c: &T, max_dense: usize, prefill: usize, out: &mut Outcome, rp: &dyn Fn(usize) -> serde_json::Value) {
+    let what = &if prefill == 0 { what.to_string() } else { format!("{what}@bit{prefill}") };
+    let new_sink = |fail_at: Option<usize>| -> UserSink {
         let mut s = UserSink::new();
+        if prefill > 0 {
+            s.bits.push_lsbs(0b101, prefill);
+        }
+        s.fail_at = fail_at;
+        s
+    };
+    let clean = catch(|| {
+        let mut s = new_sink(None);
         c.write(&mut s).map(|()| s)
     });
     let clean = match clean {
@@ -802,7 +833,7 @@ fn fault_sweep<T: BitRepr>(ctx: &Ctx, what: &str, c: &T, max_dense: usize, out: 
     for k in ks {
         out.evaluations += 1;
         let r = catch(|| {
-            let mut s = UserSink::failing_at(k);
+            let mut s = new_sink(Some(k));
             let r = c.write(&mut s);
             (r, s)
         });
@@ -825,7 +856,7 @@ fn fault_sweep<T: BitRepr>(ctx: &Ctx, what: &str, c: &T, max_dense: usize, out: 
         // (every 4th fault position, and the last) gives the fault-free bits
         if k % 4 == 0 || k + 1 == n {
             let again = catch(|| {
-                let mut s = UserSink::new();
+                let mut s = new_sink(None);
                 c.write(&mut s).map(|()| s)
             });
             out.count("rewrites_after_a_failed_write");
